@@ -318,27 +318,34 @@ def _s3_repeatable_grouping(program, res):
                                 f"order on every evaluation — order_rows(['c'], limit=1) over eight rows with equal c returned eight different rows in 40 evaluations", c)
     if ns < 2:
         res.abstain("C19-S3", "stability of the Polars sorts", f"only {ns} frame sort(s) found in _order_rows_step / _extend_step (another ordering mechanism is not decided here)")
-    # joins: Polars keeps the left frame's order for left / inner joins; a full join appends the right-only rows in hash order unless
-    # maintain_order is given.  The join whose `how` is not a literal "left"/"inner" can be the full join.
+    # joins: a join that promises no row order is a licence for the lazy optimizer — it downgrades a group_by(maintain_order=True) above or below the
+    # join and deletes a sort below it (seen in explain(): AGGREGATE[maintain_order: false], no SORT), and a full join appends the right-only rows in
+    # hash order.  (An earlier version of this rule took left / inner joins for order preserving; that holds for eager frames only.)  Every join of the
+    # step therefore has to state the order it maintains: a keyword, or the splat of a module-level dictionary that carries the keyword.
     jm = cls.methods.get("_natural_join_step")
     if jm is None:
         raise AnalysisError("anchor vanished: PolarsModel._natural_join_step")
+    mod = program.module("polars_model")
+    order_dicts = set()
+    for st in ast.walk(mod.tree):
+        if isinstance(st, ast.Assign) and len(st.targets) == 1 and isinstance(st.targets[0], ast.Name) and isinstance(st.value, ast.Dict) \
+                and any(isinstance(k, ast.Constant) and k.value == "maintain_order" for k in st.value.keys):
+            order_dicts.add(st.targets[0].id)
     nj = 0
     for c in ast.walk(jm.node):
-        if isinstance(c, ast.Call) and isinstance(c.func, ast.Attribute) and c.func.attr == "join":
-            how = next((kw.value for kw in c.keywords if kw.arg == "how"), None)
-            if isinstance(how, ast.Constant) and how.value in ("left", "inner", "semi", "anti"):
-                res.ok("C19-S3", f"_natural_join_step: join(how={how.value!r}) keeps the order of its left operand")
-                continue
+        if isinstance(c, ast.Call) and isinstance(c.func, ast.Attribute) and c.func.attr == "join" and any(kw.arg in ("left_on", "on", "how") for kw in c.keywords):
             nj += 1
-            if any(kw.arg == "maintain_order" for kw in c.keywords):
-                res.ok("C19-S3", "_natural_join_step: the general join states the row order it maintains")
+            how = next((kw.value for kw in c.keywords if kw.arg == "how"), None)
+            stated = any(kw.arg == "maintain_order" for kw in c.keywords) or any(kw.arg is None and isinstance(kw.value, ast.Name) and kw.value.id in order_dicts for kw in c.keywords)
+            if stated:
+                res.ok("C19-S3", f"_natural_join_step: join(how={unparse(how) if how is not None else None}) states the row order it maintains")
             else:
-                res.fail_at("C19-S3", jm, "polars-full-join-order-arbitrary",
-                            f"`{unparse(c.func)}(…, how={unparse(how) if how is not None else None})` can be a full join and passes no maintain_order: the right-only rows "
-                            f"come back in another order on every evaluation", c)
-    if nj < 1:
-        raise AnalysisError("C19-S3: the general join of _natural_join_step was not found")
+                res.fail_at("C19-S3", jm, "polars-join-order-unstated" if isinstance(how, ast.Constant) else "polars-full-join-order-arbitrary",
+                            f"`{unparse(c.func)}(…, how={unparse(how) if how is not None else None})` passes no maintain_order: on lazy frames (the default) the optimizer then treats the "
+                            f"row order around the join as unobserved — project(group_by) -> natural_join, or natural_join -> project, evaluated 40 times gives 30-40 different "
+                            f"row orders, and with a following order_rows(limit=1) on a tie different *rows*; a full join returns its right-only rows in hash order", c)
+    if nj < 2:
+        raise AnalysisError("C19-S3: the joins of _natural_join_step were not found")
 
 
 def run(program, res, tier):
